@@ -68,11 +68,16 @@ chk('C07', 'exploration',
 chk('C16', 'exploration',
     'A node/edge-set reference model is updated alongside every public edit '
     'of the real DepGraph in random histories (<= 40 steps: add/remove '
-    'node/edge, merge, +, +=, copy, invert) and all public queries are '
+    'node/edge, self-dependency, merge, +, +=, copy, invert, graft, in-place '
+    'closure and reduction; in a third of the histories nested graphs -- two '
+    'equal empty ones, a flat one and its look-alike -- are nodes too) and '
+    'all public queries are '
     'compared after every step; earlier copies and derived graphs are '
     're-checked against their frozen models; nested graphs (empty, one, many '
-    'nodes, two levels) are flattened and reachability among plain nodes is '
-    'compared with a virtual start/end-node reference; every digraph on <= 4 '
+    'nodes, two levels, the same or a look-alike sub-graph object in several '
+    'places) are flattened and reachability among plain nodes is '
+    'compared with a virtual start/end-node reference, the original and '
+    'every nested graph being re-compared with their models afterwards; every digraph on <= 4 '
     'labelled nodes and every DAG on 5 (thorough: every digraph on 5, for '
     'cycle detection) is built two ways and its topological sort, reduction, '
     'closure and depends() are compared with brute-force reachability; the '
@@ -119,7 +124,9 @@ chk('C01', 'exploration',
     'operation (seeded random walk and PCT depth 2-4 over random DAGs with '
     'every outcome kind and 1-16 workers; every schedule with at most 2 '
     'preemptions of the 2-3-task shapes; nested sub-graphs flattened by '
-    'the Scheduler; one schedule per case with a share of the source lines '
+    'the Scheduler, empty ones bridging hard and soft edges; backend and '
+    'task objects re-used for another graph; falsy task objects; updates '
+    'with a second top-level key; one schedule per case with a share of the source lines '
     'of queue.py / env.py as extra scheduling points) and (b) with the real '
     'primitives '
     'under a 1 us switch interval, delays between critical sections and '
@@ -160,6 +167,10 @@ chk('C03', 'exploration',
     '/ SKIPPED entries, 1-16 workers, random-walk and PCT schedules; the same '
     'census (at the instant the call comes back, and after quiescence) with '
     'real primitives under stress, the same Scheduler used for a second run, '
+    'the same backend used again after a call that raised, 1030 ready tasks '
+    'for one worker, nested graphs that are cyclic through (empty) '
+    'sub-graphs with the construction of the Scheduler bounded by a '
+    'PY_START step budget, falsy task objects, '
     'every schedule with at most two preemptions of tiny graphs, and driver '
     'child processes that only call schedule() and must exit.',
     'termination is decided as absence of deadlock at the controller\'s '
@@ -173,7 +184,9 @@ chk('C04', 'exploration',
     'fail, recover, lose their persisted entry, are newly added), the '
     'environment carried over the documented way (only DONE entries merged; '
     'also through the real write_env/read_env files), each run under a '
-    'controlled schedule with a logical clock carried across runs, a share '
+    'controlled schedule with a logical clock carried across runs (half of '
+    'these histories keep the task objects and the backend object from run '
+    'to run), a share '
     'in the stress layer with real clocks, and a share through the real '
     'RunCommand.execute (generated job file, valjean.env files, runs that '
     'ask only for a part of the job); after every run invariant I1 (no '
@@ -262,13 +275,18 @@ chk('C19', 'exploration',
     'DESIGN.md section 4 (C19)')
 chk('C20', 'exploration',
     'Random report trees (depth up to the five supported levels and one '
-    'more, reserved / repeated / nested / unusable titles, 0-3 uniquely '
-    'named results per section) are formatted and written with the real '
+    'more, reserved / repeated / nested / dotted / unusable titles, 0-3 '
+    'uniquely named results per section, given to the constructor or '
+    'appended to sections created empty) are formatted and written with the real '
     'Rst.format_report().write(); the directory is read back: every page is '
     'parsed with docutils and compared with the page set derived from the '
     'tree, the unique text marker of every section and the description and '
     'anchor of every result must appear exactly once and on the right page, '
-    'toctree entries and images are resolved on disk; for unusable titles '
+    'toctree entries and images are resolved on disk (figures written '
+    'sequentially or by 1-8 worker subprocesses); every third report is '
+    'written a second time elsewhere and the copies compared; a refusal is '
+    'legitimate only if an independent model of the page paths finds a real '
+    'collision; for unusable titles '
     'and too deep trees the call must raise with the target directory '
     '(snapshot before / after) unchanged; nothing may be written outside the '
     'target.',
@@ -323,7 +341,10 @@ chk('C10', 'exploration',
     'written from a known ground truth in the layouts of the shipped '
     'examples (1-4 editions, 1-4 responses, 1-3 zones, energy spectra with '
     'or without time / mu steps, groups printed increasing or decreasing, '
-    'integrated and not-converged results, values of both signs and zero) '
+    'integrated and not-converged results, values of both signs and zero; '
+    'results on a mesh over several energy ranges with the entropies printed '
+    'per range; listings of parallel runs whose scores discard different '
+    'numbers of batches) '
     'are parsed by batch number and by index and compared cell by cell '
     '(value = printed token, error = value x sigma% / 100, bins = printed '
     'boundaries sorted, response / zone / score-name labels). (R) every '
@@ -335,7 +356,8 @@ chk('C10', 'exploration',
     'generated with h5py from a ground truth of unique numbers (standard and '
     'user-value models, anisotropies, surfaces, local values) are read with '
     'Reader and every applicable Picker call and compared with what was '
-    'stored; Reader-vs-Picker differential and direct h5py walk on the six '
+    'stored, two files out of three rewritten at the path the previous one '
+    'had in the same process; Reader-vs-Picker differential and direct h5py walk on the six '
     'shipped files.',
     'layouts limited to those of the shipped examples; h5py trusted; one '
     'open known finding (shape () vs (1,) of one-element local values)',
